@@ -112,6 +112,10 @@ func runC16(cx *Ctx, r *Report) {
 	cx.feeTaxBounded(r)
 	// ---------------- (7) a failed parameter lookup is not used as if it had succeeded
 	cx.paramLookupErrors(r)
+	// ---------------- (7b) no constant index into a stored list on a block-handler path (shared with C13)
+	cx.recordListIndexRule(r, "abort-class-index")
+	// ---------------- (8) parameter getters hand out what is stored
+	cx.paramGettersVerbatim(r, []string{"coinswap", "farm", "htlc", "service", "token"}, "param-getter-verbatim")
 	r.requireCount("authority-guard", 5)
 	r.requireCount("validated-writer", 5)
 	cx.rateBounds(r)
@@ -1161,4 +1165,141 @@ func (cx *Ctx) paramLookupErrors(r *Report) {
 	if n < 3 {
 		r.toolErr("only %d parameter lookups with an error result found on handler paths (≥3 confirmed: htlc GetAsset / GetSupplyLimit / …)", n)
 	}
+}
+
+// paramGettersVerbatim: a keeper function that reads the module's parameters and returns
+// (part of) them returns what is stored. A getter that edits the record on the way out
+// ("when the two limits are equal the time limit is off") gives its callers another
+// parameter set than the one that was validated and than the one other code reads
+// directly from the params - two sites that must agree (the check at creation, the window
+// reset in the begin blocker) then work from different settings.
+func (cx *Ctx) paramGettersVerbatim(r *Report, mods []string, rule string) int {
+	n := 0
+	for _, G := range cx.P.AllFuncs {
+		if G.Blocks == nil || !isIrismodFunc(G) || G.Parent() != nil || !isConsensusCode(cx, G) || !strings.Contains(funcPkgPath(G), "/keeper") {
+			continue
+		}
+		m := moduleOf(funcPkgPath(G))
+		if !contains(mods, m) || G.Signature.Results().Len() == 0 {
+			continue
+		}
+		rt := G.Signature.Results().At(0).Type()
+		if p, ok := rt.(*types.Pointer); ok {
+			rt = p.Elem()
+		}
+		nt := namedOf(rt)
+		if nt == nil || nt.Obj().Pkg() == nil || !strings.HasPrefix(nt.Obj().Pkg().Path(), modPrefix) || !strings.Contains(nt.Obj().Pkg().Path(), "/types") {
+			continue
+		}
+		if _, isStruct := nt.Underlying().(*types.Struct); !isStruct {
+			continue
+		}
+		// reads the params, and only reads
+		readsParams, mutates := false, false
+		for _, h := range cx.Reachable([]*ssa.Function{G}, nil).Order {
+			if h.Blocks == nil || !isIrismodFunc(h) {
+				continue
+			}
+			for _, p := range cx.primsOf(h) {
+				if isMutatingKind(p.Kind) {
+					mutates = true
+				}
+				if p.Kind == "store.get" {
+					for _, px := range p.Prefix {
+						if isParamsPrefix(px) {
+							readsParams = true
+						}
+					}
+				} else if strings.HasPrefix(p.Kind, "store.") {
+					readsParams = readsParams || false
+				}
+			}
+		}
+		if !readsParams || mutates {
+			continue
+		}
+		// the returned type must be part of the params record (Params itself or a type nested in it)
+		if !cx.partOfParams(m, nt) {
+			continue
+		}
+		n++
+		var edits []string
+		for _, b := range G.Blocks {
+			for _, ins := range b.Instrs {
+				st, ok := ins.(*ssa.Store)
+				if !ok {
+					continue
+				}
+				fa, ok := st.Addr.(*ssa.FieldAddr)
+				if !ok {
+					continue
+				}
+				if ft := namedOf(fa.X.Type()); ft != nil && ft.Obj().Pkg() != nil && strings.HasPrefix(ft.Obj().Pkg().Path(), modPrefix) && cx.partOfParams(m, ft) {
+					// composite-literal construction of a fresh value is not an edit
+					if base, isAlloc := fa.X.(*ssa.Alloc); isAlloc {
+						whole := false
+						for _, rf := range *base.Referrers() {
+							if s2, ok := rf.(*ssa.Store); ok && s2.Addr == base {
+								whole = true
+							}
+						}
+						if !whole {
+							continue
+						}
+					}
+					edits = append(edits, ft.Obj().Name()+"."+fieldNameShort(fa.X.Type(), fa.Field)+" at "+cx.P.Pos(st.Pos()))
+				}
+			}
+		}
+		r.check(len(edits) == 0, rule, m+"|"+shortFn(G), cx.P.Pos(G.Pos()), shortFn(G)+" returns the stored "+nt.Obj().Name()+" unedited", shortFn(G)+" reads the module's parameters and edits the "+nt.Obj().Name()+" it returns ("+strings.Join(edits, ", ")+"): its callers work from another parameter set than the one stored and validated, and than code that reads the raw params - sites that must agree on a setting (a limit check and the reset of its window) no longer do")
+	}
+	return n
+}
+
+// partOfParams: the named struct type is module m's Params type or nested in it.
+func (cx *Ctx) partOfParams(m string, nt *types.Named) bool {
+	var params *types.Named
+	for _, pk := range cx.P.Pkgs {
+		if moduleOf(pk.PkgPath) != m || !strings.Contains(pk.PkgPath, "/types") {
+			continue
+		}
+		if o, ok := pk.Types.Scope().Lookup("Params").(*types.TypeName); ok {
+			if n := namedOf(o.Type()); n != nil && n.Obj().Pkg() == nt.Obj().Pkg() {
+				params = n
+			}
+		}
+	}
+	if params == nil {
+		return false
+	}
+	seen := map[*types.Named]bool{}
+	var rec func(t types.Type, d int) bool
+	rec = func(t types.Type, d int) bool {
+		if d > 5 {
+			return false
+		}
+		switch u := t.(type) {
+		case *types.Pointer:
+			return rec(u.Elem(), d+1)
+		case *types.Slice:
+			return rec(u.Elem(), d+1)
+		case *types.Named:
+			if u == nt || u.Obj() == nt.Obj() {
+				return true
+			}
+			if seen[u] {
+				return false
+			}
+			seen[u] = true
+			if st, ok := u.Underlying().(*types.Struct); ok && u.Obj().Pkg() != nil && strings.HasPrefix(u.Obj().Pkg().Path(), modPrefix) {
+				for i := 0; i < st.NumFields(); i++ {
+					if rec(st.Field(i).Type(), d+1) {
+						return true
+					}
+				}
+			}
+		}
+		return false
+	}
+	return rec(params, 0)
 }
